@@ -114,30 +114,149 @@ def classify(inst):
 
 
 # ---------------------------------------------------------------------------------------
-# code -> spec: real date() calls abstracted to ranks (A2) for ConstrainTrace
+# code -> spec: real executions abstracted to ranks (A2) for ConstrainTrace
 # ---------------------------------------------------------------------------------------
 
-def rank_event(tid, ts_in, ts_out, mean, eps, iters, extra=None):
-    """One trace event for ConstrainTrace: everything as dense ranks of the finite set of
-    floats involved.  mean = unconstrained means (fixed nodes: their input time)."""
-    out = ts_out.nodes_time
-    ep, ec = ts_in.edges_parent, ts_in.edges_child
-    plus = out[ec] + eps  # float64 sum, as the property states
+def event_from_arrays(tid, n, ep, ec, mean, out, tin, fixed, eps, iters, out2=None, muts=None):
+    """One ConstrainTrace event: dense ranks of the finite set of floats involved.
+    muts = optional (mut_time, lower, upper, above_root) arrays for the mutation-time clause."""
+    ep = np.asarray(ep)
+    ec = np.asarray(ec)
+    plus = out[ec] + eps  # float64 sum, as C01 states
     succ = np.nextafter(out[ec], np.inf)
     raised = np.maximum(plus, succ)
-    vals = np.concatenate([mean, out, plus, raised, ts_in.nodes_time])
+    parts = [mean, out, plus, raised, tin]
+    if out2 is not None:
+        parts.append(out2)
+    if muts is not None:
+        parts += [muts[0], muts[1], muts[2]]
+    vals = np.concatenate(parts)
     if not np.all(np.isfinite(vals)):
         return None
     uniq = np.unique(vals)
     rk = lambda a: (np.searchsorted(uniq, a) + 1).tolist()  # noqa: E731
-    fixed = np.zeros(ts_in.num_nodes, dtype=bool)
-    fixed[ts_in.samples()] = True
-    ev = {"tid": tid, "n": int(ts_in.num_nodes), "ep": (ep + 1).tolist(), "ec": (ec + 1).tolist(),
-          "mean": rk(mean), "out": rk(out), "plus": rk(plus), "raised": rk(raised),
-          "tin": rk(ts_in.nodes_time), "fixed": fixed.tolist(), "iters": int(iters)}
-    if extra:
-        ev.update(extra)
+    feasible = bool(np.all(mean[ep] - mean[ec] > eps)) if len(ep) else True
+    ev = {"tid": tid, "n": int(n), "ep": (ep + 1).tolist(), "ec": (ec + 1).tolist(),
+          "mean": rk(mean), "out": rk(out), "plus": rk(plus), "raised": rk(raised), "tin": rk(tin),
+          "fixed": [bool(x) for x in fixed], "iters": int(iters), "feasible": feasible,
+          "absorb": bool(np.any(raised != plus)), "out2": rk(out2 if out2 is not None else out),
+          "mt": [], "mlo": [], "mhi": [], "mroot": []}
+    if muts is not None:
+        ev.update({"mt": rk(muts[0]), "mlo": rk(muts[1]), "mhi": rk(muts[2]), "mroot": [bool(x) for x in muts[3]]})
     return ev
+
+
+def kernel_events(ctx, pid, insts, modes=("unit", "ulp"), compare_spec=True, compare_absorbing=True):
+    """Replay TLC behaviours into the real kernel; return rank events of what the code did.
+    Where the specification determines the result (iters = 0) a disagreement with the model's
+    final state is reported directly."""
+    from tsdate import util
+    events, meta = [], {}
+    for i, inst in enumerate(insts):
+        for mode in modes:
+            r = realise(inst, mode)
+            if r is None:
+                continue
+            t, fixed, ep, ec, eps, iters, out_spec = r
+            ctx.evaluations += 1
+            try:
+                got = util._constrain_ages(t, fixed, ep, ec, eps, iters)
+                got2 = util._constrain_ages(got, fixed, ep, ec, eps, iters)
+            except Exception as ex:  # noqa: BLE001
+                ctx.violation(f"{pid}/kernel/{type(ex).__name__}", {"inst": inst, "mode": mode},
+                              f"_constrain_ages raised {type(ex).__name__}: {ex}", subcheck="kernel")
+                continue
+            if classify(inst):
+                ctx.nontriv((tuple(map(tuple, inst["edges"])), tuple(inst["mean"]), tuple(inst["fixed"]),
+                             inst["eps"], inst["iters"], mode))
+            tid = f"k{i}-{mode}"
+            ev = event_from_arrays(tid, len(t), ep, ec, t, got, t.copy(), fixed, eps, iters, out2=got2)
+            events.append(ev)
+            meta[tid] = {"inst": inst, "mode": mode, "code_out": got.tolist(), "spec_out": out_spec.tolist()}
+            if compare_spec and iters == 0 and (compare_absorbing or inst["eps"] > 0) \
+                    and not np.array_equal(got, out_spec):
+                ctx.violation(f"{pid}/kernel/differs-from-Constrain-final-state", {"inst": inst, "mode": mode},
+                              f"forced pass result {got.tolist()} differs from the specification {out_spec.tolist()}",
+                              subcheck="kernel")
+            ctx.sample({"kind": "kernel replay", "instance": inst, "mode": mode, "code_out": got.tolist()})
+    return events, meta
+
+
+def mutation_bounds(ts_out):
+    """(time, lower, upper, above_root) per mutation of a dated tree sequence."""
+    mt = ts_out.mutations_time
+    node = ts_out.mutations_node
+    lo = ts_out.nodes_time[node]
+    hi = np.empty_like(lo)
+    root = np.zeros(len(lo), dtype=bool)
+    pos = ts_out.sites_position[ts_out.mutations_site]
+    tree = ts_out.first() if ts_out.num_trees else None
+    for m in range(ts_out.num_mutations):
+        tree.seek(pos[m])
+        p = tree.parent(node[m])
+        if p == -1:
+            root[m] = True
+            hi[m] = lo[m]
+        else:
+            hi[m] = ts_out.nodes_time[p]
+    return mt, lo, hi, root
+
+
+def date_events(ctx, pid, corpus, methods, settings, idempotence=True):
+    """Call the real date() on corpus x methods x settings under the API recorder and turn every
+    successful call into one ConstrainTrace event."""
+    import tsdate
+    from tsdate import util
+
+    from . import harness, record
+    events, meta = [], {}
+    for inp in corpus:
+        for method in methods:
+            for kw in settings:
+                kw = dict(kw)
+                args = dict(mutation_rate=inp.mu, method=method)
+                if method != "variational_gamma":
+                    if "historical" in inp.tags:
+                        continue
+                    args["population_size"] = inp.Ne
+                    for k in ("rescaling_intervals", "singletons_phased", "max_iterations", "rescaling_iterations"):
+                        kw.pop(k, None)
+                args.update(kw)
+                call = record.observed_call(tsdate.date, inp.ts, **args)
+                ctx.evaluations += 1
+                tid = f"{inp.name}/{method}/{sorted(kw.items())}"
+                if not call.ok:
+                    ctx.count("date_calls_rejected_or_failed")
+                    meta[tid] = {"input": inp.name, "method": method, "kw": kw, "exc": repr(call.exc)}
+                    continue  # acceptance / rejection is C35's business
+                if len(call.constrain) != 1:
+                    raise harness.MachineryError(
+                        f"expected exactly one constrain_ages call inside date(), saw {len(call.constrain)}")
+                mean, eps, iters, _ = call.constrain[0]
+                ts_in, ts_out = inp.ts, call.ts
+                try:
+                    ts_out.tables.tree_sequence()  # tskit's own integrity check ("valid tree sequence")
+                except Exception as ex:  # noqa: BLE001
+                    ctx.violation(f"{pid}/date/invalid-ts/{type(ex).__name__}", {"tid": tid},
+                                  f"returned tables are not a valid tree sequence: {ex}", subcheck="date")
+                    continue
+                out = ts_out.nodes_time
+                out2 = util.constrain_ages(ts_in, out, eps, iters) if idempotence else None
+                fixed = np.zeros(ts_in.num_nodes, dtype=bool)
+                fixed[ts_in.samples()] = True
+                ev = event_from_arrays(tid, ts_in.num_nodes, ts_in.edges_parent, ts_in.edges_child, mean, out,
+                                       ts_in.nodes_time, fixed, eps, iters, out2=out2, muts=mutation_bounds(ts_out))
+                if ev is None:
+                    ctx.violation(f"{pid}/date/non-finite-times", {"tid": tid}, "non-finite node or mutation time",
+                                  subcheck="date")
+                    continue
+                events.append(ev)
+                meta[tid] = {"input": inp.name, "method": method, "kw": kw}
+                if np.any(mean != out):
+                    ctx.nontriv(tid)
+                ctx.sample({"kind": "date() call", "tid": tid, "nodes": int(ts_in.num_nodes),
+                            "moved_nodes": int(np.sum(mean != out)), "eps": eps, "iters": iters}, limit=8)
+    return events, meta
 
 
 def write_trace(path, events):
@@ -148,7 +267,8 @@ def write_trace(path, events):
 
 
 def validate_traces(ctx, events, checks):
-    """Run ConstrainTrace over the events (one per date() call).  Returns list of rejects."""
+    """Run ConstrainTrace over the events (one per real execution).  Returns list of rejects."""
+    from .harness import MachineryError
     if not events:
         return []
     path = write_trace(os.path.join(ctx.work, f"ctrace-{len(events)}-{ctx.traces}.ndjson"), events)
@@ -158,9 +278,34 @@ def validate_traces(ctx, events, checks):
     acc = r.rec("accepted")
     rej = r.rec("reject")
     if not acc:
-        raise RuntimeError("ConstrainTrace did not report acceptance:\n" + r.stdout[-3000:])
+        raise MachineryError("ConstrainTrace did not report acceptance:\n" + r.stdout[-3000:])
     n_ok = acc[-1]["accepted"]
     if n_ok + len({x["tid"] for x in rej}) != len(events):
-        raise RuntimeError(f"ConstrainTrace accounted for {n_ok}+{len(rej)} of {len(events)} traces\n" + r.stdout[-2000:])
+        raise MachineryError(f"ConstrainTrace accounted for {n_ok}+{len(rej)} of {len(events)} traces\n" + r.stdout[-2000:])
     ctx.traces += len(events)
     return rej
+
+
+def judge(ctx, pid, checks, events, meta, label):
+    rej = validate_traces(ctx, events, checks)
+    for r in rej:
+        ev = next(e for e in events if e["tid"] == r["tid"])
+        ctx.violation(f"{pid}/{label}/{r['clause']}", {"event": ev, "meta": meta.get(r["tid"]), "checks": checks},
+                      f"trace {r['tid']} rejected by ConstrainTrace at clause {r['clause']}", subcheck=label)
+
+
+def replay(ctx, pid, checks, body):
+    inst = body["instance"]
+    if "inst" in inst:
+        ev, meta = kernel_events(ctx, pid, [inst["inst"]], modes=(inst["mode"],))
+        judge(ctx, pid, checks, ev, meta, "kernel")
+    elif "event" in inst:
+        judge(ctx, pid, inst.get("checks", checks), [inst["event"]], {}, body.get("subcheck") or "date")
+
+
+def default_corpus(ctx, big=False):
+    from . import inputs
+    q = ctx.quick
+    corpus = inputs.contemporaneous(ctx.seed, k=3 if q else 10) + inputs.polytomies(ctx.seed, k=1 if q else 3) \
+        + inputs.historical(ctx.seed, k=1 if q else 3) + inputs.internal_samples(ctx.seed, k=1 if q else 3)
+    return corpus
